@@ -741,7 +741,17 @@ class SearcherStringInit(Contract):
         self.loops = {0: inv}
 
     def elem_type(self, v):
-        return TStr(v.old.self._kind)
+        if v.old.self.has('_kind') if hasattr(v.old.self, 'has') else True:
+            try:
+                return TStr(v.old.self._kind)
+            except AttributeError:
+                pass
+        # constructed by the code under verification: the string type is that of the list it is given
+        h = v.ctx.heap[v.args_v[self.param].oid]
+        if 'comps' in h.fields:
+            return h.fields['comps'][2][1] if h.fields.get('pat') else h.fields['comps'][0][1]
+        kinds = [x.kind for x in h.fields.get('items', []) if hasattr(x, 'kind')]
+        return TStr(kinds[0] if kinds else 'b')      # a list of markers only: no string, either type will do
 
     def shape(self, b):
         kind = b.choice('mode', ['b', 's'])
